@@ -192,6 +192,14 @@ func (g *G) attr(a string, c *svcCtx) *Y {
 			return nil
 		}
 		f := func(p string) string { return relTo(c.dir, p) }
+		// each service lists its own drawn selection of the env files, in its own order
+		files := append([]string(nil), c.envFiles...)
+		for i := 0; i < len(files)-1; i++ {
+			j := i + g.n("envfile-order", len(files)-i)
+			files[i], files[j] = files[j], files[i]
+		}
+		files = files[:1+g.n("envfile-count", len(files))]
+		c = &svcCtx{dir: c.dir, envFiles: files}
 		switch g.n("envfile-form", 3) {
 		case 0:
 			return Str(f(c.envFiles[0]))
@@ -604,7 +612,7 @@ func (g *G) envFileContent(label string, vars []string) string {
 	n := 1 + g.n(label+"-lines", 4)
 	for i := 0; i < n; i++ {
 		k := g.pick(label+"-k", envKeys)
-		switch g.n(label+"-form", 7) {
+		switch g.n(label+"-form", 8) {
 		case 0:
 			fmt.Fprintf(&b, "%s=%s\n", k, g.word(label+"-v"))
 		case 1:
@@ -615,11 +623,14 @@ func (g *G) envFileContent(label string, vars []string) string {
 			fmt.Fprintf(&b, "# comment\n%s: yaml-style\n", k)
 		case 4:
 			fmt.Fprintf(&b, "%s=\"multi\nline\"\n", k)
+		case 7:
+			fmt.Fprintf(&b, "%s=\"ref-${%s:-unset}\"\n", k, g.pick(label+"-ref", envKeys))
 		case 5:
-			if len(vars) > 0 {
+			if len(vars) > 0 && g.chance(label+"-ref-project-var", 1, 2) {
 				fmt.Fprintf(&b, "%s=pre-${%s}-post # inline\n", k, vars[0])
 			} else {
-				fmt.Fprintf(&b, "%s\n", k)
+				// a reference to a key that other env files (or earlier lines) may define
+				fmt.Fprintf(&b, "%s=\"ref-${%s:-unset}\"\n", k, g.pick(label+"-ref", envKeys))
 			}
 		default:
 			fmt.Fprintf(&b, "%s=\n\n", k)
